@@ -1973,7 +1973,7 @@ pub fn property() -> Property {
         gen_sub::<ClCase>("claims", 400, 6000, cl_strategy, run_claims),
     ];
     subs.extend(super::c20b::subs());
-    Property {
+    let mut p = Property {
         id: "C20",
         rule: "one sub-check per registry; case = history of <= 50 add / remove / update / batch operations over a universe of 4-8 keys chosen by state-relative selectors \
                (Existing(first|last|element now in the slot of the last removal|only-or-middle|i), Absent, RemovedBefore), 1 case in 6 a capacity scenario that pre-fills to limit-d (d in 0..3) and \
@@ -2016,5 +2016,7 @@ pub fn property() -> Property {
             "enumeration order is never asserted; get_registries may answer one registry per (topic, registry) pair or each registry once; a recovered account = one carrying a recovered_to link (error docs of add_identity / recover_identity)",
             "identity_claims: whether the emptied topic index key is deleted or holds an empty vector is not observable through the getters and is not asserted",
         ],
-    }
+    };
+    p.floors.extend(super::c20b::FLOORS.iter().cloned());
+    p
 }
